@@ -83,8 +83,10 @@ def cases(shard, rnd):
             steps = []
             for _ in range(200):
                 k = rnd.random()
-                steps.append('on' if k < 0.25 else 'off' if k < 0.5 else
-                             'noarg' if k < 0.7 else 'probe')
+                steps.append('on' if k < 0.2 else 'off' if k < 0.4 else
+                             'noarg' if k < 0.55 else 'assign-on'
+                             if k < 0.65 else 'assign-off' if k < 0.75
+                             else 'probe')
             yield {'t': 'toggle', 'steps': steps,
                    'probes': [rnd.choice([200, 40000, 65535, 3000000000,
                                           4294967295, -5, 2**40])
@@ -273,6 +275,12 @@ def _toggle(case, rec, encode):
         elif step == 'noarg':
             encode.support_deprecated_rabbitmq()
             shadow = True
+        elif step == 'assign-on':
+            encode.DEPRECATED_RABBITMQ_SUPPORT = True
+            shadow = True
+        elif step == 'assign-off':
+            encode.DEPRECATED_RABBITMQ_SUPPORT = False
+            shadow = False
         rec.seen('toggle_forms', step)
         n = case['probes'][i]
         if not _check_top(n, shadow, rec,
@@ -299,7 +307,7 @@ def gates(m, tier):
         for tg in want:
             if '%s:%s' % (mode, tg) not in tags:
                 out.append('tag %s never observed in %s mode' % (tg, mode))
-    for f in ('on', 'off', 'noarg', 'probe'):
+    for f in ('on', 'off', 'noarg', 'probe', 'assign-on', 'assign-off'):
         if f not in m.sets.get('toggle_forms', ()):
             out.append('toggle form %s never used' % f)
     for mode in ('normal', 'legacy'):
